@@ -51,6 +51,11 @@ func (e *HTTPErrorExpr) Validate() *eval.ValidationErrors {
 	case *RootExpr:
 		ee = Root.Error(e.Name)
 	}
+	if ee == nil {
+		// The error is not defined (reported above): there is no error type to
+		// validate the response headers and body against.
+		return verr
+	}
 
 	// validate headers
 	if e.Response.Headers != nil && !e.Response.Headers.IsEmpty() {
